@@ -403,7 +403,24 @@ MODLVL == Fam("mod",
        "define void @f() {\n  br i1 true, label %a, label %b\na:\n  br label %b\nb:\n  ret void\n  uselistorder label %b, { 1, 0 }\n}",
        "define void @f() {\n  br i1 true, label %a, label %b\na:\n  br label %b\nb:\n  ret void\n}\nuselistorder_bb @f, %b, { 1, 0 }",
        "define void @f(i32 %x) {\n  call void asm sideeffect \"nop\", \"~{memory}\"()\n  %r = call i32 asm \"mov $1, $0\", \"=r,r\"(i32 %x)\n  call void asm sideeffect alignstack inteldialect \"nop\", \"\"()\n  call void asm unwind \"nop\", \"\"()\n  ret void\n}",
-       "declare void @llvm.dbg.value(metadata, metadata, metadata)\ndefine void @f(i32 %x) {\n  call void @llvm.dbg.value(metadata i32 %x, metadata !0, metadata !DIExpression())\n  call void @llvm.dbg.value(metadata !{}, metadata !0, metadata !DIExpression(DW_OP_deref))\n  ret void\n}\n!0 = !{}"
+       "declare void @llvm.dbg.value(metadata, metadata, metadata)\ndefine void @f(i32 %x) {\n  call void @llvm.dbg.value(metadata i32 %x, metadata !0, metadata !DIExpression())\n  call void @llvm.dbg.value(metadata !{}, metadata !0, metadata !DIExpression(DW_OP_deref))\n  ret void\n}\n!0 = !{}",
+       \* added from the statement-coverage survey of asm/ (constructs no earlier item reached)
+       "declare i8* @llvm.coro.begin(token, i8*)\ndefine void @f() {\n  %h = call i8* @llvm.coro.begin(token none, i8* null)\n  ret void\n}",
+       "@g = global i32 0 #0\n@h = external global i32 #1\nattributes #0 = { \"k\"=\"v\" }\nattributes #1 = { \"bss-section\"=\".b\" \"x\" }",
+       "@x = global i32 0\n@a = dllexport alias i32, i32* @x\n@b = external alias i32, i32* @x\n@c = alias i32, addrspacecast (i32* @x to i32 addrspace(1)*)\n@d = alias i32, inttoptr (i64 ptrtoint (i32* @x to i64) to i32*)",
+       "define void ()* @r() {\n  ret void ()* null\n}\n@i = external ifunc void (), void ()* ()* @r\n@j = dllexport local_unnamed_addr ifunc void (), void ()* ()* @r\n@k = thread_local ifunc void (), void ()* ()* @r\n@l = ifunc void (), void ()* ()* bitcast (void ()* ()* @r to void ()* ()*)",
+       "@g = global i32 0, align u0x10\ndefine void @f() align u0x20 {\n  %a = alloca i32, align u0x8\n  ret void\n}",
+       "declare cc 0 void @f()\ndeclare cc 8 void @g()\ndeclare cc 1023 void @h()\ndefine void @c() {\n  call cc 0 void @f()\n  call cc 8 void @g()\n  ret void\n}",
+       "declare i32 @p(...)\ndefine void @f() personality i32 (...)* @p {\nentry:\n  invoke void @f() to label %ok unwind label %cs\ncs:\n  %s = catchswitch within none [label %cp] unwind to caller\ncp:\n  %c = catchpad within %s [metadata !0, i32 1]\n  invoke void @f() [ \"funclet\"(token %c) ] to label %ok2 unwind label %cl\nok2:\n  catchret from %c to label %ok\ncl:\n  %k = cleanuppad within %c [metadata !0]\n  cleanupret from %k unwind to caller\nok:\n  ret void\n}\n!0 = !{}",
+       "declare void @a(i32* preallocated(i32))\ndeclare void @b() vscale_range(2)\ndeclare void @d() vscale_range(1,16)\ndefine void @c(i32* %p) {\n  call void asm \"\", \"*m\"(i32* elementtype(i32) %p)\n  ret void\n}",
+       "define i32* @f({i32, i32}* %p, [4 x i32]* %q, <2 x i32*> %v) {\n  %a = getelementptr [4 x i32], [4 x i32]* %q, i1 true, i1 false\n  %b = getelementptr i32, <2 x i32*> %v, <2 x i32> zeroinitializer\n  %c = getelementptr i32, <2 x i32*> %v, <2 x i32> <i32 1, i32 2>\n  %d = getelementptr i32, <2 x i32*> %v, <2 x i64> undef\n  %e = getelementptr [4 x i32], [4 x i32]* %q, i64 ptrtoint (i32* @g to i64), i64 1\n  ret i32* %a\n}\n@g = global i32 0",
+       "define void @f() {\n  ret void, !foo !{i32 1, !\"s\"}, !bar !DIBasicType(name: \"b\")\n}\n@g = global i32 0, !baz !{}",
+       "!named = !{!DIExpression(), !DIExpression(DW_OP_deref)}\n!0 = !{!DIBasicType(name: \"int\", size: 32), !DIFile(filename: \"a\", directory: \"b\"), !DISubrange(count: 3), !DIEnumerator(name: \"e\", value: 1), !DIExpression(DW_OP_deref)}\n!t = !{!0}",
+       "define void @f() {\n  ret void, !dbg !DILocation(line: 1, column: 2, scope: !4)\n}\n!0 = !DIFile(filename: \"a\", directory: \"b\")\n!1 = distinct !DICompileUnit(language: DW_LANG_C99, file: !0)\n!4 = distinct !DISubprogram(name: \"f\", unit: !1, spFlags: DISPFlagDefinition)\n!llvm.dbg.cu = !{!1}\n!llvm.module.flags = !{!9}\n!9 = !{i32 2, !\"Debug Info Version\", i32 3}",
+       "!0 = !DIBasicType(name: \"int\", size: 32, encoding: 5, flags: 0)\n!1 = !DISubroutineType(cc: 1, types: null, flags: 8192)\n!2 = !DIMacro(type: 1, name: \"N\")\n!3 = !DIFile(filename: \"a\", directory: \"b\")\n!4 = distinct !DICompileUnit(language: 12, file: !3, emissionKind: 1, nameTableKind: 1)\n!5 = !DIDerivedType(tag: 15, baseType: !0)\n!llvm.dbg.cu = !{!4}\n!t = !{!0, !1, !2, !5}\n!llvm.module.flags = !{!9}\n!9 = !{i32 2, !\"Debug Info Version\", i32 3}",
+       "!3 = !DIFile(filename: \"a\", directory: \"b\")\n!4 = distinct !DICompileUnit(language: DW_LANG_C99, file: !3)\n!5 = !DISubroutineType(types: null)\n!6 = distinct !DISubprogram(name: \"f\", scope: !3, file: !3, line: 1, type: !5, isLocal: true, isDefinition: true, isOptimized: true, virtuality: DW_VIRTUALITY_pure_virtual, unit: !4)\n!7 = !DISubprogram(name: \"g\", scope: null, file: null, type: null, isLocal: false, isDefinition: false, isOptimized: false, containingType: null, templateParams: null, declaration: null, retainedNodes: null, thrownTypes: null)\n!llvm.dbg.cu = !{!4}\n!t = !{!6, !7}\n!llvm.module.flags = !{!9}\n!9 = !{i32 2, !\"Debug Info Version\", i32 3}",
+       "!0 = !DIStringType(name: \"s\", tag: DW_TAG_string_type, size: 8)\n!1 = !DICompositeType(tag: DW_TAG_structure_type, name: \"S\", scope: null, file: null, baseType: null, elements: null, vtableHolder: null, templateParams: null)\n!2 = !DIDerivedType(tag: DW_TAG_pointer_type, baseType: null, scope: null, file: null)\n!3 = !DILocalVariable(name: \"v\", scope: !7, file: null, type: null)\n!4 = !DIBasicType(name: \"i\")\n!5 = !DIGlobalVariable(name: \"g\", scope: null, file: null, type: !4, isLocal: false, isDefinition: true, declaration: null, templateParams: null)\n!6 = !DIFile(filename: \"a\", directory: \"b\")\n!7 = distinct !DISubprogram(name: \"f\", unit: !8, spFlags: DISPFlagDefinition)\n!8 = distinct !DICompileUnit(language: DW_LANG_C99, file: !6, enums: null, retainedTypes: null, globals: null, imports: null, macros: null)\n!llvm.dbg.cu = !{!8}\n!t = !{!0, !1, !2, !3, !5}\n!llvm.module.flags = !{!9}\n!9 = !{i32 2, !\"Debug Info Version\", i32 3}",
+       "!0 = !DISubrange(count: 3, lowerBound: u0x1)\n!1 = !DIBasicType(name: \"i\", size: u0x20, align: u0x8)\n!2 = !DIEnumerator(name: \"e\", value: u0xF, isUnsigned: true)\n!t = !{!0, !1, !2}"
      >>) >>,
   {}, FALSE)
 
